@@ -114,6 +114,24 @@ func Symbolic() bool { return false }
 // Thorough reports whether the run is a thorough-tier run (VERIF_TIER=thorough).
 func Thorough() bool { return os.Getenv("VERIF_TIER") == "thorough" }
 
+// NoAddress: data that nodes must agree on (a contract result, an error text that ends up in a
+// receipt) must not contain a formatted memory address. Under the symbolic executor formatted
+// pointers are marked; natively the same call of two consecutive replay runs must yield equal
+// bytes (addresses change between runs).
+func NoAddress(label string, data []byte) {
+	k := fmt.Sprintf("%s#%d", label, counts["noaddr:"+label])
+	counts["noaddr:"+label]++
+	if prev, ok := noAddrSeen[k]; ok {
+		if !bytes.Equal(prev, data) {
+			Assert(label, false)
+		}
+		return
+	}
+	noAddrSeen[k] = append([]byte{}, data...)
+}
+
+var noAddrSeen = map[string][]byte{}
+
 // ConcreteClock: time is not the subject of this harness; the symbolic executor lets time.Now
 // return concrete instants stepNs apart instead of symbolic ones (a stated bound).
 func ConcreteClock(stepNs int64) {}
@@ -271,20 +289,24 @@ func runAgreement(list string, harnesses map[string]func()) {
 		if !ok {
 			continue
 		}
-		reset()
 		panicked := ""
-		func() {
-			defer func() {
-				if r := recover(); r != nil {
-					switch r.(type) {
-					case assumeFailed, cutT:
-					default:
-						panicked = fmt.Sprintf("%v", r)
+		noAddrSeen = map[string][]byte{}
+		// each sample runs twice: the second run compares NoAddress data with the first
+		for run := 0; run < 2 && panicked == "" && len(Violated) == 0; run++ {
+			reset()
+			func() {
+				defer func() {
+					if r := recover(); r != nil {
+						switch r.(type) {
+						case assumeFailed, cutT:
+						default:
+							panicked = fmt.Sprintf("%v", r)
+						}
 					}
-				}
+				}()
+				h()
 			}()
-			h()
-		}()
+		}
 		switch {
 		case panicked != "":
 			fmt.Printf("AGREE-MISMATCH harness=%s native panic: %s\n", rf.Harness, panicked)
